@@ -48,13 +48,14 @@ def check_case(acc, case):
     k = case['backslashes']
     payload = case['payload']
     eof = case['eof']
-    body_src = n.a + '\\' * k + '%' + payload + ('' if eof else '\n' + n.b)
+    nl = case.get('nl', '\n')
+    body_src = n.a + '\\' * k + '%' + payload + ('' if eof else nl + n.b)
     src = pre + body_src + (post if not eof else '')
     size = len(payload) * 10 + k + len(pre)
     if k % 2 == 0:
-        inner = (('T', n.a + '\\' * k), ('CM', '%' + payload)) + (() if eof else (('T', '\n' + n.b),))
+        inner = (('T', n.a + '\\' * k), ('CM', '%' + payload)) + (() if eof else (('T', nl + n.b),))
     else:
-        inner = (('T', n.a + '\\' * k + '%' + payload + ('' if eof else '\n' + n.b)),)
+        inner = (('T', n.a + '\\' * k + '%' + payload + ('' if eof else nl + n.b)),)
     want = gram.coalesce(wrap(inner))
     c = dict(case, src=src)
     soup, exc = egram.parse(src)
@@ -108,6 +109,9 @@ def cases(tier):
             for eof in ((False, True) if ctx == 'top' else (False,)):
                 for p in (payloads if k % 2 == 0 else ['c', n.a + ' ' + n.b]):
                     yield {'ctx': ctx, 'backslashes': k, 'payload': p, 'eof': eof}
+                if not eof and k in (0, 1):
+                    for p in (payloads[:400] if k == 0 else ['c']):          # the same line ended by a bare CR
+                        yield {'ctx': ctx, 'backslashes': k, 'payload': p, 'eof': eof, 'nl': '\r'}
 
 
 NPART = 32
@@ -127,7 +131,7 @@ def run_shard(shard):
 
 def replay(case):
     acc = Acc()
-    check_case(acc, {k: case[k] for k in ('ctx', 'backslashes', 'payload', 'eof')})
+    check_case(acc, {k: case[k] for k in ('ctx', 'backslashes', 'payload', 'eof', 'nl') if k in case})
     return acc.viol
 
 
